@@ -612,7 +612,19 @@ func runProgram(pr program) (res result, hung bool, stacks string, herr error) {
 						dwg.Add(1)
 						go func(np mangos.Socket, a string) {
 							defer dwg.Done()
-							_, _ = fixture.Dial(np, a)
+							if strings.HasPrefix(a, "inproc://") {
+								_, _ = fixture.Dial(np, a)
+								return
+							}
+							// Over a real network the dial is asynchronous: once the socket under test has
+							// been closed its port may be taken by an unrelated process that accepts and
+							// stays silent, and a synchronous Dial is documented to wait in that case.
+							o := fixture.DialOpts(fixture.TransportOf(a))
+							if o == nil {
+								o = map[string]interface{}{}
+							}
+							o[mangos.OptionDialAsynch] = true
+							_ = np.DialOptions(a, o)
 						}(np, extra[(wi+i+k)%len(extra)])
 					}
 					dwg.Wait()
